@@ -68,9 +68,12 @@ func verifSetup(viaRegistry bool) (Breaker, *googleBreaker) {
 // H01b: outcome accounting of Do / DoWithAcceptable / DoWithFallback /
 // DoWithFallbackAcceptable, on a Breaker and through the named registry.
 func Verif_C01_accounting() {
-	entry := verifCase(8)
-	variant := entry % 4
-	viaRegistry := entry >= 4
+	variant := verifCase(4)
+	viaRegistry := verifChoose("registry", 2) == 1
+	entry := variant
+	if viaRegistry {
+		entry += 4
+	}
 	brk, gb := verifSetup(viaRegistry)
 
 	behaviour := verifChoose("req", 4) // 0 nil, 1 e1, 2 e2, 3 panic
